@@ -2,7 +2,9 @@ package main
 
 import (
 	"fmt"
+	jmespath "github.com/jmespath/go-jmespath"
 	"reflect"
+	"strconv"
 	"strings"
 
 	"verifharness/docs"
@@ -672,7 +674,63 @@ func c18(r *mon.Run) {
 			}
 			t.Nontrivial("zv:" + expr)
 		}}
-	r.Exec(eq, paths, oddw, ffw, fiw, nrw, mixw, zsw, emb, anon, zvw, safety, hostile)
+	// equal struct values reached along different routes (a plain field, a slice element, a field behind a pointer, a
+	// pointer element), in a document handed over by value and by pointer: they compare equal like their JSON forms do
+	type rbox struct {
+		Box    docs.Leaf
+		Items  []docs.Leaf
+		PBox   *docs.Leaf
+		PItems []*docs.Leaf
+		Sub    struct{ Box docs.Leaf }
+		PSub   *struct{ Box docs.Leaf }
+		Other  docs.Leaf
+	}
+	mkBox := func() rbox {
+		l := docs.Leaf{S: "same", F: 2, B: true}
+		o := docs.Leaf{S: "other", F: 2, B: true}
+		l2, l3 := l, l
+		return rbox{Box: l, Items: []docs.Leaf{o, l, l}, PBox: &l2, PItems: []*docs.Leaf{&l3, nil, &o}, Sub: struct{ Box docs.Leaf }{l}, PSub: &struct{ Box docs.Leaf }{l}, Other: o}
+	}
+	routes := []string{"Box", "Items[1]", "Items[2]", "Items[0]", "PBox", "PItems[0]", "PItems[2]", "Sub.Box", "PSub.Box", "Other", "Items[-1]", "PItems[1]"}
+	rw := mon.Workload{Name: "equal-structs-along-different-routes", N: len(routes) * len(routes) * 4 * 2,
+		Do: func(i int, t *mon.Tally) {
+			a, b := routes[i/8%len(routes)], routes[i/8/len(routes)]
+			isPtr := func(s string) bool { return strings.HasPrefix(s, "P") && !strings.HasPrefix(s, "PSub") }
+			if isPtr(a) != isPtr(b) {
+				// a struct against a pointer to a struct: equality between two Go representations, which no property fixes
+				// (reflect.DeepEqual says "different"; the JSON forms are equal) - only like is compared with like
+				t.Count("skipped: a struct value against a pointer to a struct")
+				return
+			}
+			if i/2%4 == 2 && (isPtr(a) || isPtr(b)) {
+				t.Count("skipped: a pointer needle against a list of struct values")
+				return
+			}
+			expr := []string{a + " == " + b, a + " != " + b, "contains(Items, " + a + ") == contains(Items, " + b + ")", "[" + a + ", " + b + "] | [0] == [1]"}[i/2%4]
+			var goDoc interface{}
+			bx := mkBox()
+			if i%2 == 0 {
+				goDoc = bx
+			} else {
+				goDoc = &bx
+			}
+			tree, perr := jmespath.NewParser().Parse(expr)
+			_ = tree
+			if perr != nil {
+				r.Inconclusive("C18 workload expression does not parse: " + expr)
+				return
+			}
+			generic := docs.ToGeneric(goDoc, false)
+			t.Eval()
+			og, os := apiSearch(expr, generic), apiSearch(expr, goDoc)
+			if os.Panicked || (og.Err != nil) != (os.Err != nil) || (og.Err == nil && !mon.JSONEqual(og.V, docs.ToGeneric(os.V, false))) {
+				r.Violate(&mon.Violation{Workload: "equal-structs-along-different-routes", Index: i, API: "Search", Expr: expr, DocDesc: []string{"struct document passed by value", "struct document passed by pointer"}[i%2] + ": " + clipStr(mon.Snapshot(goDoc), 500),
+					Expected: "same as on the equivalent generic document: " + og.String(), Observed: os.String(), Class: "equal-structs-along-different-routes: differs from the JSON form"})
+				return
+			}
+			t.Nontrivial("route:" + expr + strconv.Itoa(i%2))
+		}}
+	r.Exec(eq, paths, oddw, ffw, fiw, nrw, mixw, zsw, emb, anon, zvw, rw, safety, hostile)
 }
 
 func pickKey(operand string) string {
